@@ -48,16 +48,16 @@ LEVEL_NOTE = "trusted: the Python references named in assumptions, the harness g
 def runs(tier, seed):
     if tier == "thorough":
         return [
-            Run("c45_desc", cases=400000, params={"bad": 1, "subst_every": 32, "subst_sample": 3}, timeout=3600, name="descriptor"),
-            Run("c45_bip32", cases=60000, timeout=3600, name="bip32"),
-            Run("c45_addr", cases=600000, timeout=3600, name="address"),
-            Run("c45_bech32", cases=24000, params={"nrand": 4000, "pairs_every": 40, "pairs_maxlen": 60}, timeout=3600, name="bech32"),
+            Run("c45_desc", cases=120000, params={"bad": 1, "subst_every": 32, "subst_sample": 3}, timeout=3600, name="descriptor"),
+            Run("c45_bip32", cases=30000, timeout=3600, name="bip32"),
+            Run("c45_addr", cases=400000, timeout=3600, name="address"),
+            Run("c45_bech32", cases=12000, params={"nrand": 3000, "pairs_every": 40, "pairs_maxlen": 50}, timeout=3600, name="bech32"),
         ]
     return [
-        Run("c45_desc", cases=8000, params={"bad": 1, "subst_every": 32, "subst_sample": 3}, timeout=900, name="descriptor"),
-        Run("c45_bip32", cases=2000, timeout=900, name="bip32"),
-        Run("c45_addr", cases=30000, timeout=900, name="address"),
-        Run("c45_bech32", cases=1200, params={"nrand": 1500, "pairs_every": 50, "pairs_maxlen": 40}, timeout=900, name="bech32"),
+        Run("c45_desc", cases=4800, params={"bad": 1, "subst_every": 32, "subst_sample": 3}, timeout=900, name="descriptor"),
+        Run("c45_bip32", cases=1200, timeout=900, name="bip32"),
+        Run("c45_addr", cases=18000, timeout=900, name="address"),
+        Run("c45_bech32", cases=800, params={"nrand": 1000, "pairs_every": 50, "pairs_maxlen": 40}, timeout=900, name="bech32"),
     ]
 
 
